@@ -2954,6 +2954,7 @@ impl Server {
         let seconds = match &parts[2] {
             RespFrame::BulkString(Some(bytes)) => {
                 match String::from_utf8_lossy(bytes).parse::<u64>() {
+                    Ok(0) => return Ok(RespFrame::error("ERR invalid expire time in 'setex' command")),
                     Ok(n) => n,
                     Err(_) => return Ok(RespFrame::error("ERR value is not an integer or out of range")),
                 }
@@ -2984,6 +2985,7 @@ impl Server {
         let millis = match &parts[2] {
             RespFrame::BulkString(Some(bytes)) => {
                 match String::from_utf8_lossy(bytes).parse::<u64>() {
+                    Ok(0) => return Ok(RespFrame::error("ERR invalid expire time in 'psetex' command")),
                     Ok(n) => n,
                     Err(_) => return Ok(RespFrame::error("ERR value is not an integer or out of range")),
                 }
